@@ -2,7 +2,9 @@ import McpModel.OAuth.Lemmas
 /-!
 C15 — "OAuth client flow trusts only matching, safe metadata and a matching state/iss".
 
-Every theorem is about `authorize cfg inp w` for ALL handler configurations `cfg`, ALL 401/403
+The `history_*` theorems are about ANY list of `Authorize` calls on one handler (`Handler.run`), each
+call with its own request, response and network.  Every other theorem is about one call,
+`authorize cfg inp w`, for ALL handler configurations `cfg`, ALL 401/403
 responses `inp` (status, challenges, malformed header) and ALL worlds `w` (arbitrary functions from
 step number and URL to a response variant, arbitrary fetcher), and is an invariant of the request
 log of that sequential function.  The specification predicates (`Url.httpsOrLoopback`,
@@ -510,6 +512,208 @@ theorem failed_check_installs_nothing (cfg : Config) (inp : Input) (w : World) :
       · exact absurd h h1
       · exact absurd h h2
 
+/-! ### Credentials are resolved in the call that uses them -/
+
+/-- **credentials_resolved_in_this_call**: credentials of the dynamic-registration mode appear in the
+authorization URL or a token request only if that mode is configured and the registration request
+to the registration endpoint of the metadata in use is in the log of THIS call, answered with a
+client id; a client-id-metadata-document URL only if configured and the metadata in use advertises
+support.  (With `preregistered_issuer_binding`: every credential presented is resolved against the
+metadata in use in the same call.) -/
+theorem credentials_resolved_in_this_call (cfg : Config) (inp : Input) (w : World) (e : Event)
+    (he : e ∈ (authorize cfg inp w).log) :
+    (e.cred = .dcr → cfg.dcr = true ∧ ∃ a urls, (authorize cfg inp w).asm = some a ∧
+        Event.register a.registrationEndpoint ∈ (authorize cfg inp w).log ∧
+        w.reg a.registrationEndpoint = .created true urls) ∧
+    (e.cred = .cimd → cfg.cimd = true ∧ ∃ a, (authorize cfg inp w).asm = some a ∧ a.cimdSupported = true) := by
+  have hc := authorize_cases cfg inp w
+  simp only [] at hc
+  generalize hp : discoverPrm w 0 (prmCandidates (rmFrom inp.challenges) cfg.serverUrl) = p at hc
+  have hpl : ∀ e ∈ p.2, e.cred = .none := by
+    intro e he; rw [← hp] at he
+    obtain ⟨c, _, rfl, _⟩ := discoverPrm_log he; rfl
+  generalize hI : p.1.issuer cfg.serverUrl = I at hc
+  generalize hres : p.1.resource cfg.serverUrl = res at hc
+  generalize hq : discoverAsm w I 0 (asmCandidates I) = q at hc
+  have hql : ∀ e ∈ q.2, e.cred = .none := by
+    intro e he; rw [← hq] at he
+    obtain ⟨m, _, rfl, _⟩ := discoverAsm_log he; rfl
+  generalize ha : effAsm q.1 I = a at hc
+  have hrl : ∀ e ∈ (register cfg w a).2, e.cred = .none := by
+    intro e he
+    obtain ⟨rfl, _⟩ := register_log he; rfl
+  have none_dcr : ∀ e : Event, e.cred = .none → (e.cred = .dcr → False) ∧ (e.cred = .cimd → False) := by
+    intro e h; rw [h]; simp
+  rcases hc with h | h | ⟨_, h⟩ | ⟨hp1, o, _, h⟩ | ⟨hp1, hq1, o, _, h⟩ | ⟨hp1, hq1, cred, probe, hr1, h⟩
+  · rw [h] at he; simp at he
+  · rw [h] at he; simp at he
+  · rw [h] at he
+    obtain ⟨h1, h2⟩ := none_dcr e (hpl e he)
+    exact ⟨fun x => (h1 x).elim, fun x => (h2 x).elim⟩
+  · rw [h] at he
+    simp only [List.mem_append] at he
+    have hn : e.cred = .none := by
+      rcases he with he | he
+      · exact hpl e he
+      · exact hql e he
+    obtain ⟨h1, h2⟩ := none_dcr e hn
+    exact ⟨fun x => (h1 x).elim, fun x => (h2 x).elim⟩
+  · rw [h] at he
+    simp only [List.mem_append] at he
+    have hn : e.cred = .none := by
+      rcases he with (he | he) | he
+      · exact hpl e he
+      · exact hql e he
+      · exact hrl e he
+    obtain ⟨h1, h2⟩ := none_dcr e hn
+    exact ⟨fun x => (h1 x).elim, fun x => (h2 x).elim⟩
+  · obtain ⟨f1, f2, f3, f4⟩ := finish_cases w a I res cred probe (p.2 ++ q.2 ++ (register cfg w a).2 ++ [.fetch a.authorizationEndpoint cred res])
+    have hmode := register_mode hr1
+    have hsub : ∀ x ∈ (register cfg w a).2, x ∈ (authorize cfg inp w).log := by
+      intro x hx
+      rw [h]
+      rcases f4 with ⟨hl, _⟩ | ⟨_, hl, _⟩ <;> rw [hl] <;> simp [hx]
+    have hcred : e.cred = .none ∨ e.cred = cred := by
+      rw [h] at he
+      have hpre : ∀ x ∈ p.2 ++ q.2 ++ (register cfg w a).2 ++ [Event.fetch a.authorizationEndpoint cred res],
+          x.cred = .none ∨ x.cred = cred := by
+        intro x hx
+        simp only [List.mem_append, List.mem_singleton] at hx
+        rcases hx with ((hx | hx) | hx) | hx
+        · exact Or.inl (hpl x hx)
+        · exact Or.inl (hql x hx)
+        · exact Or.inl (hrl x hx)
+        · right; rw [hx]; rfl
+      rcases f4 with ⟨hl, _⟩ | ⟨_, hl, _⟩
+      · rw [hl] at he; exact hpre e he
+      · rw [hl, List.mem_append] at he
+        rcases he with he | he
+        · exact hpre e he
+        · right; rw [(exchange_log he).1]; rfl
+    have hasm : (authorize cfg inp w).asm = some a := by rw [h]; exact f3
+    constructor
+    · intro hd
+      rcases hcred with hn | hn
+      · rw [hn] at hd; cases hd
+      · rw [hn] at hd; subst hd
+        obtain ⟨hreg, hdcr, urls, hw⟩ := register_dcr hr1
+        exact ⟨hdcr, a, urls, hasm, hsub _ hreg, hw⟩
+    · intro hd
+      rcases hcred with hn | hn
+      · rw [hn] at hd; cases hd
+      · rw [hn] at hd
+        obtain ⟨h1, h2⟩ := hmode.1 hd
+        exact ⟨h1, a, hasm, h2⟩
+
+/-! ### Histories: many `Authorize` calls on one handler -/
+
+/-- The result of one round on a handler, as a function of the handler's FIXED configuration and the round alone. -/
+def roundResult (c : HConfig) (r : Round) : Result := authorize (c.at r.serverUrl) r.inp r.world
+
+theorem Handler.authorize_cfg (h : Handler) (r : Round) : (h.authorize r).1.cfg = h.cfg := rfl
+
+theorem Handler.run_cfg (h : Handler) (rs : List Round) : (h.run rs).1.cfg = h.cfg := by
+  induction rs generalizing h with
+  | nil => rfl
+  | cons r rs ih => simp only [Handler.run]; rw [ih]; rfl
+
+/-- **history_rounds_independent**: over ANY history of `Authorize` calls on one handler, the result of
+every round is `authorize` applied to the handler's fixed configuration and THAT round's request,
+response and network — nothing resolved in an earlier round (authorization server, metadata, client
+registration, fetcher answer) is reused; the configuration never changes and the round counter counts. -/
+theorem history_rounds_independent (h : Handler) (rs : List Round) :
+    (h.run rs).2 = rs.map (roundResult h.cfg) ∧ (h.run rs).1.cfg = h.cfg ∧
+    (h.run rs).1.rounds = h.rounds + rs.length := by
+  induction rs generalizing h with
+  | nil => exact ⟨rfl, rfl, rfl⟩
+  | cons r rs ih =>
+    obtain ⟨h1, h2, h3⟩ := ih (h.authorize r).1
+    simp only [Handler.run, List.map_cons, List.length_cons]
+    refine ⟨?_, ?_, ?_⟩
+    · rw [h1]; rfl
+    · rw [h2]; rfl
+    · rw [h3]; simp only [Handler.authorize]; omega
+
+/-- Index form: the `i`-th result belongs to the `i`-th round. -/
+theorem history_round_result (h : Handler) (rs : List Round) (i : Nat) (R : Result)
+    (hR : (h.run rs).2[i]? = some R) : ∃ r, rs[i]? = some r ∧ R = roundResult h.cfg r := by
+  rw [(history_rounds_independent h rs).1, List.getElem?_map] at hR
+  cases hr : rs[i]? with
+  | none => simp [hr] at hR
+  | some r => simp [hr] at hR; exact ⟨r, rfl, hR.symm⟩
+
+/-- **history_preregistered_issuer_binding**: in EVERY round of ANY history — whatever earlier rounds did,
+e.g. a completed authorization against the issuer the credentials are bound to, followed by a round
+in which the protected-resource metadata names another (perfectly valid) authorization server —
+pre-registered credentials appear in the authorization URL or a token request only if they are
+unbound or bound to the issuer of the metadata in use IN THAT ROUND. -/
+theorem history_preregistered_issuer_binding (h : Handler) (rs : List Round) (R : Result)
+    (hR : R ∈ (h.run rs).2) (e : Event) (he : e ∈ R.log) (hp : e.cred = .pre) :
+    ∃ a pi, R.asm = some a ∧ h.cfg.pre = some pi ∧ (pi = .empty ∨ issuersEqual pi a.issuer = true) := by
+  rw [(history_rounds_independent h rs).1, List.mem_map] at hR
+  obtain ⟨r, _, rfl⟩ := hR
+  exact preregistered_issuer_binding (h.cfg.at r.serverUrl) r.inp r.world e he hp
+
+/-- **history_registered_credentials_bound_to_round**: dynamically registered credentials presented in
+round `i` were issued in round `i`: the registration request to the registration endpoint of the
+metadata in use in that round is in that round's log and that round's network answered it with a
+client id.  Credentials obtained from one authorization server are never presented to another. -/
+theorem history_registered_credentials_bound_to_round (h : Handler) (rs : List Round) (i : Nat) (R : Result)
+    (hR : (h.run rs).2[i]? = some R) (e : Event) (he : e ∈ R.log) (hd : e.cred = .dcr) :
+    h.cfg.dcr = true ∧ ∃ r a urls, rs[i]? = some r ∧ R.asm = some a ∧
+      Event.register a.registrationEndpoint ∈ R.log ∧ r.world.reg a.registrationEndpoint = .created true urls := by
+  obtain ⟨r, hr, rfl⟩ := history_round_result h rs i R hR
+  obtain ⟨h1, a, urls, h2, h3, h4⟩ := (credentials_resolved_in_this_call (h.cfg.at r.serverUrl) r.inp r.world e he).1 hd
+  exact ⟨h1, r, a, urls, hr, h2, h3, h4⟩
+
+/-- A round that ends with an error of any check leaves `TokenSource()` as it was. -/
+theorem failed_round_keeps_token_source (h : Handler) (r : Round)
+    (hf : (h.authorize r).2.outcome ≠ .ok ∧ (h.authorize r).2.outcome ≠ .post) :
+    (h.authorize r).1.served = h.served := by
+  have := (failed_check_installs_nothing (h.cfg.at r.serverUrl) r.inp r.world).2 hf
+  simp only [Handler.authorize] at this ⊢
+  rw [this]; rfl
+
+/-- **history_served_token_passed_every_check**: after ANY history the handler serves the token source it
+started with, or the one installed by a round `k` of the history whose own run installed it (and
+therefore — `failed_check_installs_nothing` — passed every check against the network of round `k`). -/
+theorem history_served_token_passed_every_check (h : Handler) (rs : List Round) :
+    (h.run rs).1.served = h.served ∨
+    ∃ k r, (h.run rs).1.served = .round (h.rounds + k) ∧ rs[k]? = some r ∧
+      (roundResult h.cfg r).installed = true := by
+  induction rs generalizing h with
+  | nil => exact Or.inl rfl
+  | cons r rs ih =>
+    simp only [Handler.run]
+    rcases ih (h.authorize r).1 with h1 | ⟨k, r', h1, h2, h3⟩
+    · rw [h1]
+      cases hi : (roundResult h.cfg r).installed with
+      | false => left; simp only [Handler.authorize]; simp only [roundResult] at hi; rw [hi]; rfl
+      | true =>
+        right
+        refine ⟨0, r, ?_, by simp, hi⟩
+        simp only [Handler.authorize]; simp only [roundResult] at hi; rw [hi]; rfl
+    · right
+      refine ⟨k + 1, r', ?_, by simpa using h2, h3⟩
+      rw [h1]; simp only [Handler.authorize]; congr 1; omega
+
+/-- The served token, spelled out: it comes from a round with justified metadata, matching state,
+passing RFC 9207 check and a successful token round trip — all with respect to THAT round's network. -/
+theorem history_served_token_justified (h : Handler) (rs : List Round) (n : Nat)
+    (hs : (h.run rs).1.served = .round n) (hne : h.served ≠ .round n) :
+    ∃ k r, n = h.rounds + k ∧ rs[k]? = some r ∧
+      ((roundResult h.cfg r).outcome = .ok ∨ (roundResult h.cfg r).outcome = .post) ∧
+      ∃ a I, (roundResult h.cfg r).asm = some a ∧ (roundResult h.cfg r).issuer = some I ∧
+        PrmJustifies (h.cfg.at r.serverUrl) r.inp r.world (roundResult h.cfg r).log I (roundResult h.cfg r).resource ∧
+        AsmJustifies r.world (roundResult h.cfg r).log I a ∧ ExchangeOk r.world a ∧
+        ∃ cred i, Event.token a.tokenEndpoint cred ∈ (roundResult h.cfg r).log ∧ r.world.tok i a.tokenEndpoint ≠ .fail := by
+  rcases history_served_token_passed_every_check h rs with h1 | ⟨k, r, h1, h2, h3⟩
+  · rw [h1] at hs; exact absurd hs hne
+  · rw [h1] at hs
+    injection hs with hs
+    obtain ⟨ho, rest⟩ := (failed_check_installs_nothing (h.cfg.at r.serverUrl) r.inp r.world).1 h3
+    exact ⟨k, r, hs.symm, h2, ho, rest⟩
+
 /-! ### Non-vacuity and the counter-example -/
 
 section Witness
@@ -571,6 +775,38 @@ installed and `Authorize` then returns the error of the post-installation token 
 theorem expired_token_installed_then_error :
     ∃ cfg inp w, (authorize cfg inp w).installed = true ∧ (authorize cfg inp w).outcome = .post :=
   ⟨wCfg, wInp, { wWorld wDoc with tok := fun _ _ => .goodExpired }, by decide, by decide⟩
+/-- A second authorization server with perfectly valid metadata of its own. -/
+def wAS2 : Url := wHttps 4 0
+def wDoc2 : AsmDoc :=
+  { issuer := wAS2, authorizationEndpoint := wHttps 4 11, tokenEndpoint := wHttps 4 12, registrationEndpoint := .empty,
+    introspectionEndpoint := .empty, pkce := true, methodPost := true }
+/-- The network after the protected-resource metadata started naming the second server. -/
+def wWorld2 : World :=
+  { prm := fun _ u => if u = wServer.derive .prmPath then .doc { resource := wServer, authServers := [wAS2] } else .status4xx
+    asm := fun _ u => if u = wAS2.derive .asOAuth then .doc wDoc2 else .status4xx
+    reg := fun _ => .fail
+    tok := fun _ _ => .good
+    fetch := fun _ => .result true .empty }
+def wHandler : Handler := { cfg := { cimd := false, pre := some wAS, dcr := false } }
+def wRound1 : Round := { serverUrl := wServer, inp := wInp, world := wWorld wDoc }
+def wRound2 : Round :=
+  { serverUrl := wServer, inp := { status403 := true, headerMalformed := false,
+                                   challenges := [{ bearer := true, error := .insufficientScope }] }, world := wWorld2 }
+
+/-- The history the binding theorem is about: round 1 completes against the issuer the credentials are
+bound to; in round 2 (a 403 step-up) the resource names another, valid server.  Round 2 stops at the
+binding check — two metadata GETs, no authorization URL, no token request — and the handler keeps
+serving round 1's token. -/
+example : ((wHandler.run [wRound1, wRound2]).2.map (·.outcome)) = [.ok, .preIss] ∧
+    ((wHandler.run [wRound1, wRound2]).2.map (·.log.length)) = [4, 2] ∧
+    (wHandler.run [wRound1, wRound2]).1.served = .round 0 := by decide
+
+/-- …and an unbound pre-registration goes through in both rounds (the premise `e.cred = .pre` of the
+history theorem is satisfiable in a later round, and `served` moves on). -/
+example : ((({ wHandler with cfg := { cimd := false, pre := some .empty, dcr := false } } : Handler).run
+      [wRound1, wRound2]).2.map (·.outcome)) = [.ok, .ok] ∧
+    (({ wHandler with cfg := { cimd := false, pre := some .empty, dcr := false } } : Handler).run
+      [wRound1, wRound2]).1.served = .round 1 := by decide
 end Witness
 
 end OAuth
